@@ -41,3 +41,32 @@ Example C06_positive_instance :
                                           (FCountC AtLeast (FVar 9 :: FVar 1 :: nil) 2%N))) = true /\
   pos 9 true (FBin BXor (FVar 9) (FVar 0)) = false.
 Proof. split; reflexivity. Qed.
+
+(** nested and mixed fixed points: when EVERY fixed-point binder of the formula (inner ones included) binds a name that is
+    positive in its own body, evaluation terminates - inner iterations re-run for each outer iterate - at the least /
+    greatest fixed point of the body; shadowing is handled by [pos] (an inner binder on X ends X's scope) *)
+From Rsbdd Require Import Lang.FixNested.
+Theorem C06_lfp_nested X T : nofsub T -> posfix T = true -> pos X true T = true ->
+  exists n r, eval_f n (FFix X false T) = Some r /\ robdd r /\ Den (bind empty X (bden r)) T (bden r) /\
+    forall d e, Den (bind empty X d) T e -> dle e d -> dle (bden r) d.
+Proof. exact (FixNested.C06_lfp_nested X T). Qed.
+Theorem C06_gfp_nested X T : nofsub T -> posfix T = true -> pos X true T = true ->
+  exists n r, eval_f n (FFix X true T) = Some r /\ robdd r /\ Den (bind empty X (bden r)) T (bden r) /\
+    forall d e, Den (bind empty X d) T e -> dle d e -> dle d (bden r).
+Proof. exact (FixNested.C06_gfp_nested X T). Qed.
+(** the meaning of such a body is monotone (polarity true) or antitone (polarity false) in the name, in every environment *)
+Theorem C06_monotone X f : posfix f = true -> forall p, pos X p f = true -> forall r d1 d2 e1 e2, dle d1 d2 ->
+  Den (bind r X d1) f e1 -> Den (bind r X d2) f e2 -> if p then dle e1 e2 else dle e2 e1.
+Proof. intros Hpf p Hp r d1 d2 e1 e2 Hd D1 D2. exact (mono_posfix X f Hpf p Hp r d1 d2 e1 e2 Hd D1 D2). Qed.
+(** termination for whole formulas of the positive fragment *)
+Theorem C06_terminates f : nofsub f -> posfix f = true -> exists n b, eval_f n f = Some b /\ Den empty f (bden b) /\ robdd b.
+Proof. exact (posfix_evaluates f). Qed.
+Print Assumptions C06_lfp_nested. Print Assumptions C06_gfp_nested. Print Assumptions C06_monotone. Print Assumptions C06_terminates.
+(** lfp X # a | gfp Y # ((X & Y) | b)  with a = 0, b = 1, X = 9, Y = 8: accepted by the criterion and evaluated to a | b;
+    the inner binder re-using the outer name shadows it:  lfp X # a | (gfp X # X & b)  is accepted too *)
+Example C06_nested_instance :
+  let T := FBin BOr (FVar 0) (FFix 8 true (FBin BOr (FBin BAnd (FVar 9) (FVar 8)) (FVar 1))) in
+  posfix T = true /\ pos 9 true T = true /\ eval_f 40 (FFix 9 false T) = Some (bor (bvar 0) (bvar 1)) /\
+  posfix (FBin BOr (FVar 0) (FFix 9 true (FBin BAnd (FVar 9) (FVar 1)))) = true /\
+  posfix (FFix 8 false (FNot (FVar 8))) = false.
+Proof. vm_compute. repeat split; reflexivity. Qed.
